@@ -74,6 +74,11 @@ class Ledger:
     def get(self, acct, asset_id):
         return self.bal.get((acct, asset_id), 0)
 
+    def clone(self):
+        o = Ledger.__new__(Ledger)
+        o.bal, o.supply, o.allow, o.dig = dict(self.bal), dict(self.supply), list(self.allow), dict(self.dig)
+        return o
+
     def diff(self, other):
         """cells whose balance differs: {(acct, asset): (self, other)}"""
         out = {}
@@ -289,7 +294,17 @@ class World:
         post = Ledger(self, res.pop("snap"))
         self.ledger = post
         self.nstep += 1
+        if op["kind"] == "add_decimals" and res["r"] == "ok":
+            self.refresh_decimals()
         return Step(op, pre, post, res, resps[:-1], self.nstep)
+
+    def refresh_decimals(self):
+        """re-read every pair's own asset_decimals (they change when a native denom is re-registered)"""
+        rs = self.srv.send([{"op": "query", "contract": p.addr, "msg": "{\"pair\":{}}"} for p in self.pairs])
+        for p, r in zip(self.pairs, rs):
+            if r["r"] != "ok":
+                raise HarnessFault("pair query failed: %r" % (r,))
+            p.decimals = list(r["v"]["asset_decimals"])
 
     # -- message builders --------------------------------------------------------
     def asset_id(self, asset):
